@@ -207,7 +207,9 @@ impl Recorder {
     pub fn finish(&self, level: &str, rule: &str, assumptions: &[&str]) -> i32 {
         let i = self.inner.lock().unwrap();
         let root = verif_root();
-        let ev_dir = root.join("evidence");
+        // experiments on a deliberately broken tree (mutants/try.sh) write their evidence elsewhere,
+        // so that /verif/evidence only ever holds runs on the tree as it is
+        let ev_dir = std::env::var("VERIF_EVIDENCE").map(PathBuf::from).unwrap_or_else(|_| root.join("evidence"));
         let rp_dir = ev_dir.join("replays");
         let _ = std::fs::create_dir_all(&rp_dir);
         // old replays of this property
